@@ -79,6 +79,20 @@ def pin_policy_ok(pin):
     return has_alpha
 
 
+def sign_transcript(st):
+    out = bytes(st["path"])
+    for name in st["order"]:
+        out += bytes(st["parts"][name].got)
+    return out
+
+
+def der_for(transcript):
+    r = hashlib.sha256(b"r" + transcript).digest()
+    s_ = hashlib.sha256(b"s" + transcript).digest()
+    body = b"\x02\x20" + r + b"\x02\x20" + s_
+    return b"\x30" + bytes([len(body)]) + body
+
+
 class StreamExpect:
     """Incremental comparison of the bytes consumed for one logical stream."""
 
@@ -593,6 +607,9 @@ class LedgerDevice:
         ex = self.expect if self.expect and self.expect.get("kind") == "sign" else None
         if ex is not None and ex.get("der") is not None:
             return ex["der"]
+        if self.cfg.get("sig_from_request") and self.sign is not None:
+            # the signature identifies exactly what this device consumed for this request
+            return der_for(sign_transcript(self.sign))
         return bytes.fromhex("3006020101020102")
 
     # ---- advance / update ancestor
